@@ -587,6 +587,13 @@ def compare(interp, op, a, b, st, node):
             return vconst(r)
     sa, sb = shape_of(a), shape_of(b)
     term = T(name, a.term, b.term)
+    # comparing a reversed vector with a scalar is the reversed comparison: (w[::-1] > c) = (w > c)[::-1]
+    rev_ = T("slice", const(None), const(None), const(-1))
+    for x_, y_, sx_, sy_, swap_ in ((a, b, sa, sb, False), (b, a, sb, sa, True)):
+        if x_.kind == "arr" and sx_ is not None and len(sx_) == 1 and sy_ == () and isinstance(x_.term, Term) and x_.term.op == "getitem" and x_.term.args[1] == rev_:
+            inner_t = T(name, y_.term, x_.term.args[0]) if swap_ else T(name, x_.term.args[0], y_.term)
+            interp.vtab.setdefault(inner_t, V("arr", inner_t, shape=sx_, orig=frozenset([FRESH]), labels=labels, loc=fresh_id(), extra="bool")) if hasattr(interp, "vtab") else None
+            return V("arr", T("getitem", inner_t, rev_), shape=sx_, orig=frozenset([FRESH]), labels=labels, loc=fresh_id(), extra="bool")
     if a.kind == "arr" or b.kind == "arr":
         shape = broadcast(interp, sa, sb, st, node, what=name)
         if not hasattr(interp, "cmp_info"):
@@ -761,6 +768,12 @@ def _canon_index(interp, base, idx):
                     changed = True
                 out.append(_full_slice())
                 continue
+        elif it.kind == "arr" and isinstance(it.term, Term) and it.term.op == "getitem" and isinstance(it.term.args[0], Term) and it.term.args[0].op == "arange" and len(it.term.args[0].args) == 1 and it.term.args[1] == T("slice", const(None), const(None), const(-1)) and it.shape is not None and len(it.shape) == 1 and it.shape[0] == d and sum(1 for z in items if z.kind in ("list", "arr")) == 1:
+            # a[np.arange(n)[::-1]] on an axis of extent n is a[::-1]
+            n_ = vconst(None)
+            out.append(V("slice", T("slice", n_.term, n_.term, const(-1)), items=[n_, n_, vconst(-1)], labels=it.labels))
+            changed = True
+            continue
         elif it.kind == "list" and it.items is not None and len(it.items) == 1 and it.items[0].has_const and it.items[0].const == 0 and d.is_const() and d.c == 1:
             changed = True
             out.append(_full_slice())
